@@ -125,8 +125,12 @@ def sec_measured(ctx, rng, case):
     dims = (2,) * n
     budget = [6]
     items = B.gen_body(rng, n, depth=int(rng.integers(1, 4)), visible=set(), budget=budget, allow_measure=True,
-                       cond_blocks=bool(rng.random() < 0.5))
+                       cond_blocks=bool(rng.random() < 0.5), cond_index=bool(rng.random() < 0.5), meas_conf=bool(rng.random() < 0.5))
     if not _has_block(items) or not any(s["t"] == "M" for s in B.flatten(items)):
+        return
+    if B.flat_index_errors(B.flatten(items)):
+        # a condition that picks a record of its key which does not exist yet when it runs: outside the domain
+        ctx.reject("generator-record-index-out-of-range")
         return
     if rng.random() < 0.4:
         B.add_tags(rng, items)
@@ -145,6 +149,8 @@ def sec_measured(ctx, rng, case):
         ctx.reject("generator-unbound-control")
         return
     ctx.check(not unbound, "harness-sanity", "C12:harness-unbound-control", "generator produced an unbound control %r" % unbound, **wit)
+    if B.flat_indexed_controls(flat):
+        ctx.event("control-on-an-earlier-record-of-a-repeated-key")
     ref = I.distribution(I.run(B.flat_to_ref(flat), dims))
     kind = ["sv", "sv-nosplit", "dm"][int(rng.integers(3))]
     ex = _explore_run(circuit, kind)
@@ -361,6 +367,12 @@ def _gen_shadow(rng, n, depth, outer_has_key):
     def ctrl():
         tgt = int(rng.integers(n))
         c = {"t": "key", "key": "a", "index": -1} if rng.random() < 0.7 else {"t": "sympy_eq", "key": "a", "dims": (2,), "const": int(rng.integers(2))}
+        if c["t"] == "key" and rng.random() < 0.45:
+            # an earlier record of the shadowed key instead of the latest one (validity is decided on the flat program)
+            c["index"] = int([0, 0, -2, 1][int(rng.integers(4))])
+            if rng.random() < 0.3:
+                c = {"t": "bitmask", "key": "a", "index": c["index"], "target_value": int(rng.integers(2)),
+                     "equal_target": bool(rng.random() < 0.5), "bitmask": [None, 1][int(rng.integers(2))]}
         return {"t": "C", "cond": c, "inner": {"t": "U", "spec": "XPow", "p": (1.0, 0.0), "w": (tgt,)}}
     if has and rng.random() < 0.5:
         items.append(ctrl())
@@ -405,6 +417,11 @@ def sec_shadow(ctx, rng, case):
     flat = B.flatten(items)
     if not _has_block(items) or B.count_digits(items) > 9 or B.flat_unbound_controls(flat):
         return
+    if B.flat_index_errors(flat):
+        ctx.reject("generator-record-index-out-of-range")
+        return
+    if B.flat_indexed_controls(flat):
+        ctx.event("control-on-an-earlier-record-of-a-repeated-key")
     qubits = P.make_qubits(rng, dims)
     circuit = cirq.Circuit(B.items_to_moments(items, qubits))
     wit = dict(n=n, tree=B.describe(items))
